@@ -130,7 +130,8 @@ def run_property(prop, tier, module, repo=None, quiet=False, want_ast=True):
     def P(*a):
         s = " ".join(str(x) for x in a); out.append(s)
         if not quiet: print(s, flush=True)
-    evidence_path = os.path.join(VERIF, "evidence", "%s.json" % prop)
+    evdir = os.environ.get("VERIF_EVIDENCE_DIR") or os.path.join(VERIF, "evidence")
+    evidence_path = os.path.join(evdir, "%s.json" % prop)
     try:
         os.remove(evidence_path)
     except OSError:
@@ -169,7 +170,7 @@ def run_property(prop, tier, module, repo=None, quiet=False, want_ast=True):
         P("  [%s] %-9s %s  @ %s %s" % (i["rule"], i["verdict"], i["key"], i["site"], ("-- " + i["note"]) if i["note"] else ""))
     for n in cx.notes: P("  note:", n)
     exit_code = 0
-    replay_dir = os.path.join(VERIF, "evidence", "replay")
+    replay_dir = os.path.join(evdir, "replay")
     os.makedirs(replay_dir, exist_ok=True)
     nviol = 0; nknown = 0
     for n, v in enumerate(cx.violations):
